@@ -143,7 +143,8 @@ class Gen:
             return ("map", self.rtype(proj, fname, depth + 1, typedefs, keyok=True),
                     self.rtype(proj, fname, depth + 1, typedefs))
         if r < 0.45 and tds:
-            return rng.choice(tds)
+            q = [t for t in tds if "." in t[1]]
+            return rng.choice(q) if q and rng.random() < 0.5 else rng.choice(tds)
         if r < 0.6 and vis["struct"]:
             return rng.choice(vis["struct"])
         if r < 0.7 and vis["enum"]:
@@ -875,34 +876,44 @@ class Editor:
         return None
 
     # -- typedefs (in the root or in an included file, at any depth of a chain)
-    def typedef_change(self):
+    def typedef_change(self, where=None):
+        """change the target of a typedef (root or included file, any link of a chain); prefers a
+        typedef whose change reaches an audited site"""
+        if not self.free(("typedef",)):
+            return None
         oldsites = audited_type_sites(self.old)
-        for fname in self.pick(self.new.keys()):
+        cands = [(fname, name, t) for fname in self.new for name, t in self.new[fname]["typedefs"]
+                 if where is None or (where == "include") == (fname != "main")]
+        unused = None
+        for fname, name, t in self.pick(cands):
             fa = self.new[fname]
-            for name, t in self.pick(list(fa["typedefs"])):
-                if not self.free(("typedef",)):
-                    return None
-                nf = resolve(self.new, fname, t)
-                for _ in range(20):
-                    c = ("b", self.rng.choice(BASE)) if self.rng.random() < 0.6 else ("list", ("b", self.rng.choice(BASE)))
-                    if resolve(self.new, fname, c) != nf:
-                        break
-                else:
-                    continue
-                before = copy.deepcopy(self.new)
-                j = [n for n, _ in fa["typedefs"]].index(name)
+            nf = resolve(self.new, fname, t)
+            for _ in range(20):
+                c = ("b", self.rng.choice(BASE)) if self.rng.random() < 0.6 else ("list", ("b", self.rng.choice(BASE)))
+                if resolve(self.new, fname, c) != nf:
+                    break
+            else:
+                continue
+            before = copy.deepcopy(self.new)
+            j = [n for n, _ in fa["typedefs"]].index(name)
+            fa["typedefs"][j] = (name, c)
+            # the effect of a typedef change is wherever the typedef is used (and audited)
+            sites = [k for k in changed_type_sites(before, self.new) if k in oldsites]
+            claims = [("typedef",)] + [(k[0], k[1]) if k[0] in KINDS else ("scope", k[1], k[2]) if k[0] == "op"
+                                       else ("service", k[1], k[2]) for k in sites]
+            fa["typedefs"][j] = (name, t)
+            if conflicts(self.claimed, claims[1:]):
+                continue
+            if sites:
                 fa["typedefs"][j] = (name, c)
-                # the effect of a typedef change is wherever the typedef is used (and audited)
-                sites = [k for k in changed_type_sites(before, self.new) if k in oldsites]
-                claims = [("typedef",)] + [(k[0], k[1]) if k[0] in KINDS else ("scope", k[1], k[2]) if k[0] == "op"
-                                           else ("service", k[1], k[2]) for k in sites]
-                if conflicts(self.claimed, claims[1:]):
-                    fa["typedefs"][j] = (name, t)
-                    continue
-                if sites:
-                    return {"name": "typedef_changed_%s" % ("root" if fname == "main" else "include"), "breaking": True,
-                            "claims": claims, "errors": [r"types not equal: "], "sites": len(sites)}
-                return {"name": "typedef_changed_unused", "breaking": False, "claims": claims}
+                return {"name": "typedef_changed_%s" % ("root" if fname == "main" else "include"), "breaking": True,
+                        "claims": claims, "errors": [r"types not equal: "], "sites": len(sites)}
+            if unused is None:
+                unused = (fname, j, name, c, claims)
+        if unused is not None:
+            fname, j, name, c, claims = unused
+            self.new[fname]["typedefs"][j] = (name, c)
+            return {"name": "typedef_changed_unused", "breaking": False, "claims": claims}
         return None
 
     def typedef_add(self):
@@ -942,6 +953,9 @@ BREAKING_EDITS = [
     ("operation_removed", lambda e: e.op_remove()),
     ("operation_retype", lambda e: e.op_retype()),
     ("typedef_changed", lambda e: e.typedef_change()),
+    ("typedef_changed_include", lambda e: e.typedef_change("include")),
+    ("typedef_changed_include", lambda e: e.typedef_change("include")),
+    ("typedef_changed_root", lambda e: e.typedef_change("root")),
 ]
 COMPATIBLE_EDITS = [
     ("field_retype_equivalent", lambda e: e.field_retype(same=True)),
